@@ -58,6 +58,30 @@ def replication_algebra(w):
         I = lambda x, y: ex.call_function(inter, [Ref([deep_copy(x)], 0), deep_copy(y)])
         C = lambda x: ex.call_function(clamp, [Ref([deep_copy(x)], 0), n])
         sx = lambda: {'a': repr(a), 'b': repr(b), 'c': repr(c)}
+        if ex.env.get('native'):
+            runner, prof = ex.env['native']
+            ex.env['native_used'] = True
+            K = {'Unlimited': 0, 'Limited': 1, 'Host': 2, 'One': 3}
+            args = []
+            for r in (a, b, c):
+                args += [K[r.variant], hlib.concrete_int(ex, r.fields[0]) if r.fields else 0]
+            nn = hlib.concrete_int(ex, n)
+            txt = runner('repl_algebra', args + [nn])[prof]
+            ex.env['native_out'] = txt
+            t = txt.split()
+            if txt == 'PANIC' or len(t) != 8:
+                raise Unsupported('native driver: ' + txt)
+            ab, ba, ab_c, a_bc, aa = t[:5]
+            ca, cb, cab = map(int, t[5:])
+            show = lambda r: {'Unlimited': 'U', 'Host': 'H', 'One': 'O'}.get(r.variant) or 'L%d' % hlib.concrete_int(ex, r.fields[0])
+            for ok_, msg in ((ab == ba, 'Replication::intersect is not commutative'),
+                             (ab_c == a_bc, 'Replication::intersect is not associative'),
+                             (aa == show(a), 'Replication::intersect is not idempotent'),
+                             (ca <= nn, 'clamp exceeds the number of cores'), (ca >= 1, 'clamp gives zero replicas'),
+                             (cab == min(ca, cb), 'clamp(intersect(a,b)) != min(clamp(a), clamp(b))')):
+                if not ok_:
+                    raise Violation(msg + ' (native output: %s)' % txt, hlib._wit(ex), sx())
+            return {'native': txt}
         ab, ba = I(a, b), I(b, a)
         check(ex, eq(ex, ab, ba), 'Replication::intersect is not commutative', sx)
         check(ex, eq(ex, I(ab, c), I(a, I(b, c))), 'Replication::intersect is not associative', sx)
